@@ -416,13 +416,13 @@ class Body:
         elif op['k'] in ('copy', 'move'):
             local = op['place']['local']
             pr = op['place']['proj']
-            if pr and pr[0]['k'] == 'field' and pr[0].get('adt') in ('<tuple>', None) and 'idx' in pr[0]:
-                # a field of a tuple built in one place (`let (a, b) = (x, y)`, an argument tuple): only that field's sources
-                ds = self.assigns().get(local, [])
-                if ds and not (1 <= local <= self.arg_count) and all(d[2] == 'stmt' and not d[4] and d[3]['k'] == 'aggregate' and d[3].get('agg') == 'tuple'
-                                                                      and pr[0]['idx'] < len(d[3]['fields']) for d in ds):
-                    for d in ds:
-                        out |= self.origins(d[3]['fields'][pr[0]['idx']], through_calls, _seen, fields, binops)
+            if pr and pr[0]['k'] == 'field' and pr[0].get('adt') != '<closure>' and 'idx' in pr[0] and not (1 <= local <= self.arg_count):
+                # a field of a tuple / struct value built in this body (`let (a, b) = (x, y)`, an argument tuple, `let s = Spaces { theirs,
+                # mine }; .. s.mine`), also through whole-value copies: only what went into that field
+                r = self._field_sources(local, pr[0].get('adt'), pr[0]['idx'], 0)
+                if r is not None:
+                    for f in r:
+                        out |= self.origins(f, through_calls, _seen, fields, binops)
                     return out
             if len(pr) >= 2 and pr[0]['k'] == 'downcast' and pr[1]['k'] == 'field' and not (1 <= local <= self.arg_count):
                 # the payload of one variant of an enum value built in this body (`match helper() { Ok(v) => v, .. }` after the helper
@@ -486,6 +486,33 @@ class Body:
                     out.add(('static', rv['def']))
                 else:
                     out.add(('other', bb, i))
+        return out
+
+    def _field_sources(self, local, adt, idx, depth):
+        """operands stored as field `idx` in every place the tuple (adt None / '<tuple>') or struct `adt` held by `local` is built,
+        following plain copies of the whole value; None when some definition is not such an aggregate"""
+        if depth > 4:
+            return None
+        ds = self.assigns().get(local, [])
+        if not ds or (1 <= local <= self.arg_count):
+            return None
+        out = []
+        for (bb, i, kind, rv, proj) in ds:
+            if kind != 'stmt' or proj:
+                return None
+            if rv['k'] == 'aggregate':
+                is_t = rv.get('agg') == 'tuple' and adt in (None, '<tuple>')
+                is_s = rv.get('agg') == 'adt' and adt not in (None, '<tuple>') and rv.get('adt') == adt
+                if not (is_t or is_s) or idx >= len(rv['fields']):
+                    return None
+                out.append(rv['fields'][idx])
+            elif rv['k'] == 'use' and rv['op'].get('k') in ('copy', 'move') and not rv['op']['place']['proj']:
+                r = self._field_sources(rv['op']['place']['local'], adt, idx, depth + 1)
+                if r is None:
+                    return None
+                out.extend(r)
+            else:
+                return None
         return out
 
     def _variant_payload(self, local, vname, idx, depth):
